@@ -85,10 +85,13 @@ Inductive ack :=
 | AFrame (len step : Z)     (* #SUCC:len/step *)
 | AFinal (step : Z)         (* #SUCC:step *)
 | ADigest (d : digest)      (* #SUCC:<digest> answering the MD5 line *)
+| AKeep                     (* #SUCC:= the keep-alive of a pausing peer (protocol >= 3): recvCheckV2 reads again;
+                               checkBinary (the digest echo) does NOT skip it *)
 | AOther.
 
 Fixpoint send_final (size : Z) (mine : digest) (as_ : list ack) : bool :=
   match as_ with
+  | AKeep :: rest => send_final size mine rest
   | AFinal step :: rest =>
     if (step >? size)%Z then false
     else if (step =? size)%Z then
@@ -97,12 +100,25 @@ Fixpoint send_final (size : Z) (mine : digest) (as_ : list ack) : bool :=
   | _ => false
   end.
 
-Fixpoint send_v2 (size : Z) (mine : digest) (sent : list Z) (as_ : list ack) : bool :=
+Fixpoint send_v2 (size : Z) (mine : digest) (sent : list Z) (as_ : list ack) {struct as_} : bool :=
   match sent with
   | [] => send_final size mine as_
   | n :: sent' =>
     match as_ with
+    | AKeep :: rest => send_v2 size mine sent rest
     | AFrame len _ :: rest => if (len =? n)%Z then send_v2 size mine sent' rest else false
+    | _ => false
+    end
+  end.
+
+(* protocol 1 (sendFileData, sendFileMD5): every chunk is acknowledged by its decoded length
+   (checkInteger) before the next one is sent; then the echoed digest *)
+Fixpoint send_v1 (mine : digest) (sent : list Z) (as_ : list ack) : bool :=
+  match sent with
+  | [] => match as_ with ADigest d :: _ => deq d mine | _ => false end
+  | n :: sent' =>
+    match as_ with
+    | AFinal k :: rest => if (k =? n)%Z then send_v1 mine sent' rest else false
     | _ => false
     end
   end.
